@@ -24,6 +24,9 @@ class GetterProfile(StoreProfile):
         p["n_entities"] = rng.randint(2, 9 if tier == "quick" else 14)
         p["n_ops"] = rng.randint(6, 14 if tier == "quick" else 36)
         p["capacity"] = rng.choice([4096, 4096, 64, 8])
+        # a small share of the runs also asks ',' lists whose alternatives OVERLAP (a '*' next to a literal): legal searches
+        # of the C07 family ("comma lists"), kept to few runs because GetFromAll has an open finding there (F2)
+        p["overlap_lists"] = rng.random() < 0.06
         return p
 
     def gen(self, run, i):
@@ -77,6 +80,15 @@ class GetterProfile(StoreProfile):
         attrs = None
         if rng.random() < 0.5:
             attrs = rng.sample(ATTR_KEYS + ["missing_key", "sid"], rng.randint(1, 3))
+        if run.params.get("overlap_lists") and rng.random() < 0.5:
+            segs = s.split("?")[0].split("/")
+            lits = [k for k, x in enumerate(segs) if k > 0 and x not in ("*", ">", "**") and "," not in x and x not in m.alias]
+            if lits and "**" not in segs:
+                k = rng.choice(lits)
+                segs[k] = rng.choice(["*,%s", "%s,*"]) % segs[k]
+                s = "/".join(segs) + ("?" + s.split("?", 1)[1] if "?" in s else "")
+                return {"op": "get", "party": rng.choice(["GP:" + cfg, "GA", "GA"]), "s": s, "attributes": None,
+                        "enc": rng.choice(["enc_str", "enc_uri"]), "held": rng.random() < 0.4, "overlap": True}
         party = rng.choice(["GP:" + cfg, "GP:" + cfg, "GA"])
         return {"op": "get", "party": party, "s": s, "attributes": attrs, "enc": rng.choice(ENCODERS), "held": rng.random() < 0.4}
 
@@ -113,6 +125,16 @@ class GetterProfile(StoreProfile):
             # types configured without a Getter yield nothing (and do not fail)
             sids = [v for v in sids if (m.routing.get(v.type) or {}).get("getter")]
         recs = [X.decode(r) for r in recs]
+        if step.get("overlap"):
+            run.probes["overlapping_alternatives_asked"] += 1
+            if party == "GA" and len(recs) > len(sids) and all(isinstance(r, dict) and "sid" in r for r in recs):
+                # the records identify their Sid here (encoder str / uri, no attribute list): are the extra ones repeats?
+                first = []
+                for r in recs:
+                    if r not in first:
+                        first.append(r)
+                run.check(len(first) != len(sids), "C16.getfromall_repeats_records_for_overlapping_alternatives",
+                          dict(det, records=len(recs), distinct_records=len(first), found=len(sids)))
         run.check(len(recs) == len(sids), "C16.record_count", dict(det, records=len(recs), found=[v.uri for v in sids][:8],
                                                                  got=[r.get("sid") if isinstance(r, dict) else r for r in recs][:8]))
         for v, rec in zip(sids, recs):
